@@ -90,7 +90,19 @@ def validation(ctx, rule="C12.validation"):
                        ast.unparse(cfd.node(h).ast.iter if cfd.node(h).kind == "for" else cfd.node(h).ast)) for n in rng)
     ctx.ob(rule, d.site, scalar, "" if scalar else "a scalar parameter outside the allowed ranges is accepted", role="guard:scalar-range",
            line=d.node.lineno)
-    ctx.ob(rule, d.site, iterable, "" if iterable else "array-valued parameters are not range-checked element-wise",
+    # ... and over ALL elements: the loop iterates over the flattened values themselves
+    every = False
+    for n in rng:
+        for h, lab in cfd.branch_conditions(n.id):
+            if cfd.node(h).kind == "for":
+                it = cfd.node(h).ast.iter
+                dv = derives(d.node, it, h)
+                if dv.has_call("_flatten") and not (dv.has_call("min") or dv.has_call("max") or
+                                                    any(isinstance(e, ast.Subscript) for e in ast.walk(it))):
+                    every = True
+    iterable = iterable and every
+    ctx.ob(rule, d.site, iterable, "" if iterable else "array-valued parameters are not range-checked element by element "
+           "(every value, not only extremes: allowed sets are unions of ranges)",
            role="guard:iterable-range", line=d.node.lineno)
     r = ctx.tree.func("compilers/compiler.py", "Range.__contains__")
     ok = False
@@ -198,7 +210,39 @@ def op_clone(ctx, rule="C12.op-clone"):
     ctx.floor(rule, 2)
 
 
+def merge_params(ctx, rule="C12.merge-params"):
+    ctx.explain(f"{rule}: where Xunitary.compile replaces several S2gates on one mode pair by one, every parameter it reads "
+                "from the removed commands (squeezing AND phase) flows into the constructor of the merged gate.")
+    f = ctx.tree.func("compilers/xunitary.py", "Xunitary.compile")
+    rd = rd_of(f.node)
+    reads = {}
+    for nd in rd.cfg.nodes:
+        st = nd.ast
+        if nd.kind == "stmt" and isinstance(st, (ast.Assign, ast.AugAssign)):
+            v = st.value
+            if isinstance(v, ast.Subscript) and isinstance(v.slice, ast.Constant) and (dotted(v.value) or "").endswith(".op.p") \
+                    and "removed" in (dotted(v.value) or ""):
+                t = st.targets[0] if isinstance(st, ast.Assign) else st.target
+                if isinstance(t, ast.Name):
+                    reads[v.slice.value] = t.id
+    ctx.require(len(reads) >= 2, "Xunitary.compile no longer reads p[0] and p[1] of the S2gates it merges")
+    ctors = [n for n in walk_no_nested(f.node) if isinstance(n, ast.Call) and dotted(n.func) == "ops.S2gate" and
+             any(isinstance(a, ast.Name) for a in n.args)]
+    ctx.require(ctors, "the merged S2gate constructor was not found")
+    c = ctors[-1]
+    got = set()
+    for a in c.args:
+        d = derives(f.node, a)
+        got |= {x.var for x in d.defs} | {a.id if isinstance(a, ast.Name) else ""}
+    for k, name in sorted(reads.items()):
+        ok = name in got
+        ctx.ob(rule, f.site, ok, "" if ok else f"p[{k}] of the merged S2gates (variable `{name}`) does not reach the merged gate "
+               f"`{ast.unparse(c)}`: the common {'phase' if k == 1 else 'squeezing'} is lost", role=f"carries:p{k}", line=c.lineno)
+    ctx.floor(rule, 2)
+
+
 def rules(ctx):
+    merge_params(ctx)
     validation(ctx)
     xseries_guards(ctx)
     op_clone(ctx)
